@@ -18,6 +18,7 @@ DECIDED += "; R9 the page-cache eviction loop terminates for every max_pages; As
 DECIDED += '; R2 also: the in-flight and ready pools change one element at a time (no wholesale overwrite / clear); R4 also: O_DIRECT alignment tests address, offset and length each, in the ring as in the file API'
 DECIDED += "; R10 no panicking arithmetic on the guest's offset in the executors, or unrepresentable ranges completed with an immediate error at submit; R6 also: completion deadlines saturate and the waiter's deadline is computed with a checked addition; R4 also: both siblings report an injected corruption"
 DECIDED += '; R4 also: the short-read draw starts at 1 and the injected flush follows the write, in the ring as in the file API'
+DECIDED += "; R11 the file shim's two fd tables (open_handles, direct_io_fds) are extended and shrunk together; flag rejection never tests that a masked bit is absent"
 ASSUMPTIONS = ["the consumer keeps buffers alive until the CQE is reaped (io_uring contract)"]
 
 RS = "turmoil_io_uring::sim::RingState::"
